@@ -204,3 +204,57 @@ func isNilIface(v any) bool {
 }
 
 func jsonMarshal(v any) ([]byte, error) { return json.Marshal(v) }
+
+// ---- retention monitor: a returned barcode is a snapshot; later calls must not change it.
+
+type retainedBC struct {
+	bc   barcode.Barcode
+	sig  uint64
+	desc string
+}
+
+var retainRing []retainedBC
+
+func pixelSig(bc barcode.Barcode) uint64 {
+	h := uint64(1469598103934665603)
+	mix := func(v uint32) {
+		h ^= uint64(v)
+		h *= 1099511628211
+	}
+	b := bc.Bounds()
+	for y := b.Min.Y; y < b.Max.Y; y++ {
+		for x := b.Min.X; x < b.Max.X; x++ {
+			r, g, bl, a := bc.At(x, y).RGBA()
+			mix(r ^ g<<1 ^ bl<<2 ^ a<<3)
+		}
+	}
+	for _, ch := range []byte(bc.Content()) {
+		mix(uint32(ch))
+	}
+	mix(uint32(b.Dx()))
+	mix(uint32(b.Dy()))
+	return h
+}
+
+// retainObserve re-reads the barcodes kept from earlier calls (they must be unchanged)
+// and then keeps this one; size is the ring length.
+func retainObserve(c *fw.Ctx, fam string, bc barcode.Barcode, desc string, size int) {
+	for i := range retainRing {
+		old := &retainRing[i]
+		var now uint64
+		pv, _ := fw.Call(func() { now = pixelSig(old.bc) })
+		if pv != nil || now != old.sig {
+			c.Violation("retained-result-changed/"+fam, fmt.Sprintf("a barcode returned earlier (%s) changed after the later call %s", old.desc, desc), desc, "")
+			old.sig = now
+		}
+	}
+	var sig uint64
+	if pv, _ := fw.Call(func() { sig = pixelSig(bc) }); pv != nil {
+		return
+	}
+	if len(retainRing) >= size {
+		copy(retainRing, retainRing[1:])
+		retainRing = retainRing[:len(retainRing)-1]
+	}
+	retainRing = append(retainRing, retainedBC{bc, sig, desc})
+}
